@@ -41,6 +41,8 @@ pub mod api;
 pub mod output;
 pub use toktrie;
 pub mod panic_utils;
+#[cfg(feature = "verif_hooks")]
+pub mod verif_hooks;
 
 mod constraint;
 mod stop_controller;
